@@ -33,7 +33,7 @@ RULE = ("(1) EVERY .co file under the repository (exhaustive, both tiers), versi
         "nearest config.yml, default 1.0); (2) generated Colang 2.x source programs (if/elif/else, while, break/continue also outside loops, "
         "when/or when/else, and/or groups under match/await/start/send, start/await/activate/deactivate, NLD assignment, user labels, "
         "return/abort; nesting depth <= 4 quick / 6 thorough) through the real parser + initialize_flow; (3) generated Colang 2.x ASTs "
-        "(control-flow subset, depth <= 6) straight into expand_elements, compared with the Lean model Expand; (4) generated Colang 1.0 source "
+        "(control flow, groups, start/await/activate, NLD, when/or when/else; depth <= 6) straight into expand_elements, compared with the Lean model Expand; (4) generated Colang 1.0 source "
         "(if/else if/else, while, break/continue, when/else when, label/goto, any, $x = ...) through the real parser; (5) generated CoYML item "
         "trees (depth <= 6, incl. undefined/duplicate checkpoints) straight into parse_flow_elements, compared with the Lean model V1Compile. "
         "non-trivial = the compiled flow contains at least one jump target / relative offset; distinct = distinct case JSON.")
@@ -44,8 +44,8 @@ TRUSTED_BASE = [
     "the model of slide's look-ups (Closed.step) covers Goto/ForkHead/Abort/Break/Continue/CatchPatternFailure; MergeHeads' head_fork_uids look-up and scope bookkeeping are dynamic and only constrained statically (merge after fork, EndScope after BeginScope)",
 ]
 ASSUMPTIONS = [
-    "Colang 2.x compiler model (Expand) covers if/elif/else, while/break/continue; groups, when, start/await/activate are validated by the proved checker on the real output only",
-    "scope pairing is on the linear element order (every BeginScope has a later EndScope of the same name, every EndScope an earlier BeginScope), not per execution path",
+    "Colang 2.x compiler model (Expand) covers if/elif/else, while/break/continue, match/send/start/await groups, start/await/activate/deactivate, NLD assignment, when/or when/else; it starts from the DNF computed by the real normalize_element_groups (C07) and does not model the aliasing of AST objects between the copies of then-/else-bodies (such ASTs: proved checkers + oracle only)",
+    "scope pairing in `Closed` is on the linear element order; the per-path statement (no BeginScope met while the scope is held, no failing look-up) is proved per program by the certificate checker `pathSafe` on every real flow that opens a scope (<= 400 elements)",
     "a flow the loader rejects (syntax error, expansion error) is outside the property; such inputs are counted and listed",
 ]
 
@@ -403,7 +403,7 @@ def gen_cases(rng, tier):
     if tier == "quick":
         n_v2src, n_v2ast, n_v1src, n_v1items, depth = 900, 5000, 1500, 5000, 4
     else:
-        n_v2src, n_v2ast, n_v1src, n_v1items, depth = 8000, 100000, 12000, 100000, 6
+        n_v2src, n_v2ast, n_v1src, n_v1items, depth = 5000, 45000, 10000, 60000, 6
     for _ in range(n_v2src):
         cases.append({"kind": "v2src", "src": gen_v2_src(rng, rng.randrange(1, depth + 1))})
     for _ in range(n_v2ast):
